@@ -47,11 +47,18 @@ SplitOps == {"split", "rsplit", "split_keep", "split_terminator", "rsplit_termin
 SkipOps  == {"skip", "skip_back"}
 
 MkOp(o, p, n) == [op |-> o, p |-> p, n |-> n]
+\* Parser::into_error(kind) / into_other_error(&"custom"): always an error, built from the parser as it is
+\* (specification growth: no listed property speaks about them; the harness compares them as "extra")
+IntoErrOps   == {"into_error", "into_other_error"}
+IntoErrKinds == <<"Find", "Strip", "ParseBool", "Other">>
+OtherMessage == "custom"
 OpSet == {MkOp(o, <<>>, 0) : o \in NoArgOps}
            \cup {MkOp(o, p, 0) : o \in PatOps, p \in Pats}
            \cup {MkOp(o, d, 0) : o \in SplitOps, d \in Delims}
            \cup {MkOp(o, <<>>, n) : o \in SkipOps, n \in SkipNs}
            \cup {MkOp(o, <<>>, k) : o \in PmOps, k \in 1..Len(PmAlts)}
+           \cup {MkOp("into_error", <<>>, k) : k \in 1..Len(IntoErrKinds)}
+           \cup {MkOp("into_other_error", <<>>, 0)}
 
 DirOf(o) == IF o \in {"trim", "trim_matches"} THEN "B"
             ELSE IF o \in {"trim_end", "trim_end_matches", "strip_suffix", "rfind_skip", "rsplit",
@@ -77,7 +84,9 @@ IntVal(r) == IF r.neg THEN 0 - ValOf(r.mag) ELSE ValOf(r.mag)
 
 Effect(o, rem, y) ==
     LET len == Len(rem) IN
-    CASE o.op = "trim_start" -> OkCut(WsStart(rem), 0, y, NoRet)
+    CASE o.op = "into_error" -> Fail(IntoErrKinds[o.n])
+      [] o.op = "into_other_error" -> Fail("Other")
+      [] o.op = "trim_start" -> OkCut(WsStart(rem), 0, y, NoRet)
       [] o.op = "trim_end"   -> OkCut(0, WsEnd(rem), y, NoRet)
       [] o.op = "trim"       -> OkCut(WsStart(TrimEndWs(rem)), WsEnd(rem), y, NoRet)
       [] o.op = "trim_start_matches" -> OkCut(len - Len(TrimStartM(rem, o.p)), 0, y, NoRet)
@@ -147,7 +156,24 @@ NewSo(o, e) == IF DirOf(o.op) = "E" THEN so
                ELSE IF DirOf(o.op) = "B" THEN so + e.cs        \* trim_end().trim_start(): only the start counts
                ELSE so + ((hi - lo) - ((hi - e.ce) - (lo + e.cs)))   \* so += old_len - new_len
 \* the error, built from the parser the method was called on
-ErrOf(o, e) == [kind |-> e.kind, off |-> IF DirOf(o.op) = "E" THEN so + (hi - lo) ELSE so, dir |-> DirOf(o.op)]
+ErrDir(o)   == IF o.op \in IntoErrOps THEN dir ELSE DirOf(o.op)
+ErrOf(o, e) == [kind |-> e.kind, off |-> IF ErrDir(o) = "E" THEN so + (hi - lo) ELSE so, dir |-> ErrDir(o)]
+
+\* ParseError's Display / panic text: prefix for the direction, the offset, " byte offset", suffix for the kind
+\* (specification growth, compared as "extra")
+DirText(d)  == CASE d = "S" -> "error from the start at the "
+                 [] d = "E" -> "error from the end at the "
+                 [] d = "B" -> "error from the start and end at the "
+KindText(k, extra) ==
+    CASE k = "ParseInteger" -> " while parsing an integer"
+      [] k = "ParseBool" -> " while parsing a bool"
+      [] k = "Find" -> " while trying to find and skip a pattern"
+      [] k = "Strip" -> " while trying to strip a pattern"
+      [] k = "SplitExhausted" -> ": called split on empty parser"
+      [] k = "DelimiterNotFound" -> ": delimiter (for splitting) could not be found"
+      [] k = "Other" -> IF extra = "" THEN " other error" ELSE ": " \o extra
+ErrMsg(o, e) == [pre |-> DirText(ErrDir(o)), off |-> ErrOf(o, e).off, mid |-> " byte offset",
+                 suf |-> KindText(e.kind, IF o.op = "into_other_error" THEN OtherMessage ELSE "")]
 
 Do(o) ==
     LET e == Effect(o, Rem, yls) IN
@@ -172,8 +198,8 @@ WindowInv == /\ 0 <= lo /\ lo <= hi /\ hi <= Len(orig)
 \* a failing operation reports the start (end) offset of the parser it was called on
 ErrorInv == \A o \in OpSet :
                 LET e == Effect(o, Rem, yls) IN
-                ~e.ok => /\ ErrOf(o, e).off = (IF DirOf(o.op) = "E" THEN base + hi ELSE base + lo)
-                         /\ ErrOf(o, e).dir = DirOf(o.op)
+                ~e.ok => /\ ErrOf(o, e).off = (IF ErrDir(o) = "E" THEN base + hi ELSE base + lo)
+                         /\ ErrOf(o, e).dir = ErrDir(o)
 
 (* C14: split protocols, stated on the transition function *)
 RECURSIVE Pieces(_, _)
